@@ -1119,3 +1119,105 @@ func TestGovcReplay(t *testing.T) {
 		},
 	})
 }
+
+func init() {
+	harnesses = append(harnesses, &harness{
+		name:      "HTTP/2 frame reader replay (header block over HEADERS + 1..3 CONTINUATION frames; every strict prefix; watchdog)",
+		modelFree: true,
+		match: func(o *Obligation) bool {
+			return strings.Contains(o.Func, "http2.(*MFramer).ReadFrame") || strings.Contains(o.Func, "http2.(*MFramer).readMetaFrame")
+		},
+		run: func(eng *Engine, o *Obligation) *ReplayOutcome {
+			src := `package http2
+
+import (
+	"bytes"
+	"context"
+	"fmt"
+	"net/http"
+	"strings"
+	"testing"
+	"time"
+
+	"mosn.io/mosn/pkg/module/http2/hpack"
+	"mosn.io/pkg/buffer"
+)
+
+func govcWire(parts int) []byte {
+	var block bytes.Buffer
+	enc := hpack.NewEncoder(&block)
+	for _, hf := range []hpack.HeaderField{
+		{Name: ":method", Value: "GET"}, {Name: ":scheme", Value: "http"}, {Name: ":path", Value: "/x"}, {Name: ":authority", Value: "h"},
+		{Name: "x-a", Value: strings.Repeat("a", 40)}, {Name: "x-b", Value: strings.Repeat("b", 40)},
+	} {
+		enc.WriteField(hf)
+	}
+	b := block.Bytes()
+	step := len(b) / parts
+	var w bytes.Buffer
+	wf := NewFramer(&w, nil)
+	wf.WriteHeaders(HeadersFrameParam{StreamID: 1, BlockFragment: b[:step], EndStream: true, EndHeaders: parts == 1})
+	for k := 1; k < parts; k++ {
+		end := (k + 1) * step
+		if k == parts-1 {
+			end = len(b)
+		}
+		wf.WriteContinuation(1, k == parts-1, b[k*step:end])
+	}
+	return w.Bytes()
+}
+
+func govcFramer() *MFramer {
+	fr := new(MFramer)
+	fr.Framer.ReadMetaHeaders = hpack.NewDecoder(initialHeaderTableSize, nil)
+	fr.Framer.MaxHeaderListSize = http.DefaultMaxHeaderBytes
+	fr.Framer.SetMaxReadFrameSize(defaultMaxReadFrameSize)
+	return fr
+}
+
+// The failed obligation says: the frame reader may read outside the received bytes or may not terminate.
+// Replay: valid header blocks split over 1..4 frames, complete and cut at every length, each read under a
+// watchdog; the backing array is exactly as long as the received bytes, so any over-read panics.
+func TestGovcReplay(t *testing.T) {
+	for parts := 1; parts <= 4; parts++ {
+		wire := govcWire(parts)
+		for cut := len(wire); cut >= 0; cut-- {
+			got := make(chan string, 1)
+			data := buffer.NewIoBufferBytes(append(make([]byte, 0, cut), wire[:cut]...))
+			go func() {
+				defer func() {
+					if r := recover(); r != nil {
+						got <- fmt.Sprint("panic: ", r)
+					}
+				}()
+				f, n, err := govcFramer().ReadFrame(context.Background(), data, 0)
+				if cut < len(wire) && err == nil {
+					got <- fmt.Sprintf("decoded %T of %d bytes from a truncated block", f, n)
+					return
+				}
+				if cut == len(wire) && (err != nil || n != len(wire)) {
+					got <- fmt.Sprintf("complete block: n=%d err=%v", n, err)
+					return
+				}
+				got <- ""
+			}()
+			select {
+			case s := <-got:
+				if s != "" {
+					fmt.Printf("REPLAY-CONFIRMED header block over %d frames, %d of %d bytes received: %s\n", parts, cut, len(wire), s)
+					return
+				}
+			case <-time.After(2 * time.Second):
+				fmt.Printf("REPLAY-CONFIRMED header block over %d frames, %d of %d bytes received: ReadFrame does not return (still running after 2s)\n", parts, cut, len(wire))
+				return
+			}
+		}
+	}
+	fmt.Println("REPLAY-NOT-REPRODUCED")
+}
+`
+			out, _ := runOverlayTest("pkg/module/http2", src, "^TestGovcReplay$")
+			return outcomeFromOutput(src, out)
+		},
+	})
+}
